@@ -341,4 +341,27 @@ def World.runEvs (w : World) : List Ev → World × List Bool
     let (w2, bs) := w1.runEvs es
     (w2, b :: bs)
 
+/-! ## Vocabulary of the history theorems (`Properties/C20.lean`) -/
+
+/-- No event of the history performs a `register a` (checked along the run, because which call a
+`deliver` delivers depends on the state). -/
+def NoRegister (a : Addr) : World → List Ev → Prop
+  | _, [] => True
+  | w, e :: es => (∀ x ∈ w.regEvents e, x.registers a = false) ∧ NoRegister a (w.step e).1 es
+
+/-- A handler that would unregister `a`. -/
+def hbUnregs (a : Addr) : HbPc → Bool
+  | .start (some b) false => b == a
+  | .read (some b) false _ => b == a
+  | _ => false
+
+def labelUnregs (a : Addr) : HbLabel → Bool
+  | .other e => e.unregisters a
+  | _ => false
+
+/-- Run the concurrent heartbeat-handler system along a label sequence (disabled labels are skipped). -/
+def hbRun (c : HbCfg) : List HbLabel → HbCfg
+  | [] => c
+  | l :: ls => hbRun ((hbStep? c l).getD c) ls
+
 end MlModel.Registry
